@@ -142,8 +142,17 @@ pub fn dressed_reference(r: &[u8], dress: usize) -> Vec<u8> {
 }
 
 pub fn lo_on_file(dir: &str, reference: Option<&[u8]>, extra: &[&str], threads: usize, hash_seed: Option<u64>) -> Result<LoOut, String> {
-    for f in ["out_snps.fas", "out_snps.vcf", "out_pseudo_genomes.fas", "out_indels.vcf"] {
-        let _ = std::fs::remove_file(format!("{dir}/{f}"));
+    // the files lo always writes are pre-filled with a longer stale file (they must be replaced); the two that only a
+    // reference run writes are removed otherwise
+    for f in ["out_snps.fas", "out_indels.vcf"] {
+        crate::scratch::stale(&format!("{dir}/{f}"));
+    }
+    for f in ["out_snps.vcf", "out_pseudo_genomes.fas"] {
+        if reference.is_some() {
+            crate::scratch::stale(&format!("{dir}/{f}"));
+        } else {
+            let _ = std::fs::remove_file(format!("{dir}/{f}"));
+        }
     }
     let ts = threads.to_string();
     let mut a: Vec<&str> = vec!["lo", "in.skf", "out", "--threads", &ts];
